@@ -274,6 +274,7 @@ pub fn gen_op(w: &World, rng: &mut Rng, prof: &Profile, seq: &mut u64) -> Op {
         5 => Op::Restart {
             mode: if rng.chance(2, 3) { RestartMode::Shutdown } else { RestartMode::FlushAll },
             drop_index: rng.chance(1, 8),
+            quiesce: rng.chance(2, 3),
         },
         6 => Op::Purge,
         7 => {
